@@ -31,7 +31,7 @@ func main() {
 	run := core.Start("C20", "model_checking", "XSTATE")
 	log.SetLog(zap.NewNop())
 	crypto.NodeInit(crypto.CryptoType)
-	c := &ctx{run: run, classes: core.NewCounter(), samples: core.NewSampler(8, run.Seed), dataMax: p2p.VerifDataMaxSize}
+	c := &ctx{run: run, classes: newCounter(), samples: core.NewSampler(8, run.Seed), dataMax: p2p.VerifDataMaxSize}
 
 	if run.ReplayPath != "" {
 		var k kase
@@ -115,7 +115,7 @@ func main() {
 	progress("admission done")
 	// (b') conformance subset on started MConnections
 	t3 := time.Now()
-	mres := c.runMConnSubset()
+	mres := c.runMConnSubset(skip("mconn"))
 	tMconn := time.Since(t3).Seconds()
 
 	cls := c.classes.Map()
